@@ -39,11 +39,11 @@ func (t *tapConn) Write(p []byte) (int, error) {
 
 // pairRT performs the server side of the handshake with the real Accept on the other end of the transport.
 type pairRT struct {
-	server   *websocket.Conn
-	sopts    *websocket.AcceptOptions
-	cliConn  *tapConn
-	srvConn  *tapConn
-	respExt  string
+	server    *websocket.Conn
+	sopts     *websocket.AcceptOptions
+	cliConn   *tapConn
+	srvConn   *tapConn
+	respExt   string
 	acceptErr error
 }
 
